@@ -7,7 +7,7 @@
 From hls Require Import Base Float Lex Kinds Types Tags Line Keys Media.
 From hls.Generated Require Import Tables.
 From hls Require Import Master.
-From hls.Proofs Require Import Build Lexical Values TextLines AttrText TagText TagTextMedia TagTextVariant TagTextSegment TagTextDateRange FloatRound FloatGuard FloatAll MediaParsedWf MediaParsedFloats.
+From hls.Proofs Require Import Build Lexical Values TextLines AttrText TagText TagTextMedia TagTextVariant TagTextSegment TagTextDateRange FloatRound FloatGuard FloatAll MediaParsedWf MediaParsedFloats FloatFixed3.
 Open Scope N_scope.
 
 Theorem C18_uint : forall w n, n < 2 ^ w -> parse_uint w (print_uint n) = Some n.
@@ -292,6 +292,14 @@ Theorem C18_duration_hypothesis : forall ns : N, ns < 1048576 * 1000000000 -> du
 Proof. exact dur_rt_small. Qed.
 Check C18_duration_hypothesis : forall ns : N, ns < 1048576 * 1000000000 -> dur_rt ns = true.
 Print Assumptions C18_duration_hypothesis.
+
+(* FRAME-RATE: the three-decimal writer ({:.3}) and the float reader give the value back for EVERY f32 that is the nearest to
+   a number with at most three decimals below 8192 (V/1000) — the values a FRAME-RATE written per RFC 8216 parses to; for other
+   f32 values the {:.3} text is a different number and `ufloat_rt` is false by design *)
+Theorem C18_frame_rate_3dec : forall V : N, V < 8192000 -> ufloat_rt (dec_to_f b32 (DNum false (Z.of_N V) (-3))) = true.
+Proof. exact ufloat_rt_3dec. Qed.
+Check C18_frame_rate_3dec : forall V : N, V < 8192000 -> ufloat_rt (dec_to_f b32 (DNum false (Z.of_N V) (-3))) = true.
+Print Assumptions C18_frame_rate_3dec.
 
 Example C18_float_text_example :
   valid32 (FFin true 12582912 (-22)) /\ print_f32 (FFin true 12582912 (-22)) = lit "-3" /\ valid32 (FFin false 1 (-149))
